@@ -49,6 +49,7 @@ Section ValInd.
     | VUuid s => H_atom (VUuid s) eq_refl
     | VDecimal s => H_atom (VDecimal s) eq_refl
     | VDate o s => H_atom (VDate o s) eq_refl
+    | VDateTime o s => H_atom (VDateTime o s) eq_refl
     end.
 End ValInd.
 
